@@ -2,6 +2,7 @@
 From CSL Require Import Base.Prelude Base.Hex Json.Decimal Json.Json Json.MetadataJson Json.Chunks Json.PlutusJson
   Json.SerdeForms Json.JsonProofs Json.MetadataJsonProofs Json.ChunksProofs Json.PlutusJsonProofs Json.SerdeFormsProofs
   Json.Witnesses Codec.Schema Json.SerdeSchema Json.SerdeSchemaProofs Json.SerdeLedger Json.SerdeLedgerProofs.
+From CSL Require Addr.Shelley Addr.Bech32Iface Json.SerdeAddr.
 Local Open Scope N_scope.
 
 (* Metadata converted to JSON and back is unchanged under DetailedSchema whenever the first conversion succeeds
@@ -66,6 +67,22 @@ Theorem C17_plutus_in_schema_converts :
 Proof. exact (j2p_detailed_in_schema_converts cur_cfg eq_refl). Qed.
 Print Assumptions C17_plutus_in_schema_converts.
 
+(* BasicConversions (no round-trip claim in the property): both directions are defined exactly on the schema's
+   language - a datum whose map has a structured key or a key with no / several values, a JSON document with null, a
+   boolean, a non-integer number or a malformed 0x string give Err, never a different value. *)
+Theorem C17_plutus_basic_out_of_schema_is_error :
+  (forall p, pbasic_dom p = false -> p2j PBasic p = Err) /\
+  (forall j, pbasic_json_dom j = false -> j2p cur_cfg PBasic j = Err).
+Proof. split; [exact p2j_basic_out_of_schema_is_error|exact (j2p_basic_out_of_schema_is_error cur_cfg)]. Qed.
+Print Assumptions C17_plutus_basic_out_of_schema_is_error.
+Theorem C17_plutus_basic_in_schema_converts :
+  (forall p, pbasic_dom p = true -> exists j, p2j PBasic p = Ok j) /\
+  (forall j, pbasic_json_dom j = true -> exists p, j2p cur_cfg PBasic j = Ok p).
+Proof. split; [exact p2j_basic_in_schema_converts|exact (j2p_basic_in_schema_converts cur_cfg)]. Qed.
+Print Assumptions C17_plutus_basic_in_schema_converts.
+Example ex_pbasic_out : pbasic_dom (PMap [(PInt 1, [PInt 10; PInt 20])]) = false /\ pbasic_dom (PMap [(PInt 1, [PInt 10])]) = true.
+Proof. split; reflexivity. Qed.
+
 (* Arbitrary bytes round-trip through the chunked-metadata helpers; the encoding is valid metadata. *)
 Theorem C17_chunks :
   forall bs, exists m, encode_arbitrary_bytes bs = Ok m /\ decode_arbitrary_bytes m = Ok bs.
@@ -124,6 +141,24 @@ Theorem C17_serde_annotations_wf : forall emb unemb d, Forall (fun e => wfj (snd
 Proof. exact serde_table_wfj. Qed.
 Print Assumptions C17_serde_annotations_wf.
 Check ex_value_ok. Check ex_cert_ok. Check ex_withdrawals_ok. Check ex_withdrawals_rev_reordered.
+
+(* The external-string parameters instantiated with the concrete bech32 model and the library's prefix rule (C11): the
+   address and public-key leaves need no premise - every well-formed address with a network id (all 16 ids, every kind;
+   a Byron address needs a known protocol magic) and every 32-byte key is in the leaf's domain. *)
+Theorem C17_serde_address_leg :
+  forall a, Shelley.wf_address a -> (exists p, Bech32Iface.default_prefix a = Ok p) ->
+  leaf_wf SerdeAddr.conc_str SerdeAddr.conc_of_str (LExt EXT_ADDRESS) (VBytes (Shelley.to_bytes a)) = true.
+Proof. exact SerdeAddr.address_leaf_in_domain. Qed.
+Print Assumptions C17_serde_address_leg.
+Theorem C17_serde_vkey_leg :
+  forall b, bytes_ok b -> leaf_wf SerdeAddr.conc_str SerdeAddr.conc_of_str (LExt EXT_VKEY) (VBytes b) = true.
+Proof. exact SerdeAddr.vkey_leaf_in_domain. Qed.
+Print Assumptions C17_serde_vkey_leg.
+(* e.g. an enterprise address on network id 5 is written with the main-network prefix and read back *)
+Example ex_address_net5 :
+  SerdeAddr.addr_of_text (SerdeAddr.addr_text (101 :: List.repeat 7 28%nat)) = Some (101 :: List.repeat 7 28%nat) /\
+  firstn 5 (SerdeAddr.addr_text (101 :: List.repeat 7 28%nat)) = [97; 100; 100; 114; 49].
+Proof. split; vm_compute; reflexivity. Qed.
 
 (* The full first sentence, for reference: it speaks about the derive expansions (external); [to_json],
    [from_json] and [maps_ascending] would be the serde interpretation of the C01 schemas. *)
